@@ -60,7 +60,10 @@ def model_domain(runner, cfg, tier):
     for f in flows:
         ck = f.ck
         isn = (f.seq - 1) & 0xFFFFFFFF
-        pay = {0: [req, req[:2], req[2:9], req[9:], b"SSH-2.0-cli\r\n", b"zzz"], 1: [rpc, rpc[:20], rpc[20:], b"\x80\0"], 2: [req]}[flows.index(f)]
+        big_stun = stun(1, STUN_MAGIC + b"\x13" * 12, stun_attr(0x8022, b"s" * 252) + stun_change_request(False, True))
+        frag = b"\x01" + rpc[1:]                       # the same call in a fragment that is not the last of its record
+        pay = {0: [req, req[:2], req[2:9], req[9:], b"SSH-2.0-cli\r\n", b"zzz", b"SSH-", b"2.0-cli\r\n"],
+               1: [rpc, rpc[:20], rpc[20:], b"\x80\0", big_stun, frag], 2: [req]}[flows.index(f)]
         frames.append(f.peer.tcp(f.sport, f.dport, isn, 0, F_SYN))
         frames.append(f.peer.tcp(f.sport, f.dport, isn, 0, F_SYN | F_ECE | F_CWR))
         frames.append(f.peer.tcp(f.sport, f.dport, f.seq, (ck + 1) & 0xFFFFFFFF, F_ACK))
@@ -69,6 +72,8 @@ def model_domain(runner, cfg, tier):
         frames.append(f.peer.tcp(f.sport, f.dport, f.seq, (ck + 1) & 0xFFFFFFFF, F_SYN | F_ACK))
         for x in pay:
             frames.append(f.peer.tcp(f.sport, f.dport, f.seq, (ck + 1) & 0xFFFFFFFF, F_PSH | F_ACK, x))
+        frames.append(f.peer.tcp(f.sport, f.dport, f.seq, (ck + 1) & 0xFFFFFFFF, F_PSH | F_ACK, pay[0], doff=8,
+                                 options=b"\x01\x01\x08\x0a\x00\x01\xe2\x40\x00\x00\x00\x00"))
         frames.append(f.peer.tcp(f.sport, f.dport, f.seq, (ck + 2) & 0xFFFFFFFF, F_PSH | F_ACK, pay[0]))
         frames.append(f.peer.tcp(f.sport, f.dport, f.seq, ck, F_PSH | F_ACK, pay[0]))
         frames.append(f.peer.tcp(f.sport, f.dport, f.seq, 0, F_PSH | F_ACK, b""))
